@@ -613,6 +613,111 @@ def judge_features(ctx, w, case, path, before):
 
 
 # ---------------------------------------------------------------------------------------------
+# row contents: the model with rows (`AF.Migrate.runHistoryR` / `interruptedR`, request "rtree")
+
+
+def enc_value(v):
+    """canonical text of a stored value (the model only moves values); None = NULL"""
+    import hashlib
+    if v is None:
+        return None
+    if isinstance(v, bool):
+        v = int(v)
+    if isinstance(v, int):
+        s = f"i:{v}"
+    elif isinstance(v, float):
+        s = "f:" + v.hex()
+    elif isinstance(v, bytes):
+        s = "b:" + v.hex()
+    else:
+        s = "t:" + str(v)
+    return s if len(s) <= 48 else s[:2] + "#" + hashlib.sha1(s.encode()).hexdigest()[:20]
+
+
+def tables_of_state(state):
+    """{table: [[[column, value], ...] per row in rowid order]} of a real file"""
+    out = {}
+    for t, cols in state["schema"].items():
+        d = state["data"].get(t, {})
+        n = len(d[cols[0]]) if cols and cols[0] in d else 0
+        out[t] = [[[c, enc_value(d[c][i])] for c in cols] for i in range(n)]
+    return out
+
+
+def rows_wire(state):
+    tabs = tables_of_state(state)
+    return {"tables": [[t, state["schema"][t], tabs[t]] for t in sorted(state["schema"])], "rev": L.rev_wire(state["rev"])}
+
+
+def ask_rows(ctx, cfg, state0, depth, crash):
+    """the row-level model's answer for one start state: ({path: node with 'tables' resolved}, crash node)"""
+    req = {"p": "C19", "q": "rtree", "cfg": cfg, "file": None if state0 is None else rows_wire(state0), "depth": depth}
+    if crash is not None:
+        req["crash"] = crash
+    ans = ctx.lean.ask(req)
+    if "driver_error" in ans:
+        return None, ans
+    if not ans.get("file_wf", False):
+        ctx.disagree("C19.rows.wf", {"what": "rows of the file handed to the model do not fit its columns"}, True, False)
+    as_dict = lambda tables: {t: rows for t, _cols, rows in tables}
+    resolved = {}
+    if crash is not None and ans.get("crash"):
+        resolved[""] = as_dict(ans["crash"]["tables"])
+    elif state0 is not None:
+        resolved[""] = tables_of_state(state0)
+    nodes = {}
+    for n in ans["nodes"]:
+        if not n:
+            continue
+        p = n["path"]
+        resolved[p] = resolved.get(p[:-1]) if n["same"] else as_dict(n["tables"])
+        nodes[p] = dict(n, tables=resolved[p])
+    crash_node = ans.get("crash")
+    if crash_node:
+        crash_node = dict(crash_node, tables=as_dict(crash_node["tables"]))
+    return nodes, crash_node
+
+
+def compare_rows(ctx, case, rnode, state, events, clause="C19.rows"):
+    """statements, schema, stamp AND every row of every table of the real file vs the model with rows"""
+    if rnode is None:
+        ctx.disagree(f"{clause}.model-node-missing", case, None, None)
+        return False
+    if not compare_model(ctx, case, rnode, state, events, clause=clause):
+        return False
+    if not rnode.get("wf"):
+        ctx.disagree(f"{clause}.wf", case, True, False)
+        return False
+    impl = tables_of_state(state)
+    model = rnode["tables"]
+    if json.dumps(impl, sort_keys=True) != json.dumps(model, sort_keys=True):
+        bad = sorted(t for t in set(impl) | set(model or {}) if impl.get(t) != (model or {}).get(t))
+        t = bad[0]
+        ctx.disagree(f"{clause}.table-rows", dict(case, table=t), (impl.get(t) or [])[:3], ((model or {}).get(t) or [])[:3])
+        return False
+    ctx.hit("rows-compared")
+    return True
+
+
+def judge_new_columns(ctx, w, case, before, after):
+    """a column (or table) the migration added holds nothing on the rows that were there before - unless it is
+    the new name of a renamed column"""
+    targets = {(t, b) for (t, a), b in w.renames.items()}
+    bad = []
+    for t, cols in after["schema"].items():
+        if t not in before["schema"]:
+            if any(len(v) for v in after["data"].get(t, {}).values()):
+                bad.append([t, "*rows in a new table*"])
+            continue
+        for c in cols:
+            if c not in before["schema"][t] and (t, c) not in targets:
+                if any(v is not None for v in after["data"][t][c]):
+                    bad.append([t, c])
+    if bad:
+        fail(ctx, w, "C19-new-column-not-null", f"columns added by the migration are not NULL on the old rows: {bad[:6]}", case, bad)
+
+
+# ---------------------------------------------------------------------------------------------
 # one start state: the whole history tree
 
 
@@ -634,6 +739,10 @@ def run_tree(ctx, w, variant, rev, depth, cfg, crash=None, smoke="first", only_p
         ctx.disagree("C19.driver", desc, None, ans)
         return
     nodes = {n["path"]: n for n in ans["nodes"] if n}
+    rnodes, rcrash = ask_rows(ctx, cfg, state0, depth, crash)  # the model with rows
+    if rnodes is None:
+        ctx.disagree("C19.driver.rows", desc, None, rcrash)
+        return
     stamped_k = int(rev[3:]) if (rev or "").startswith("id:") else None
     first_role = "fresh" if variant is None else "migrate"
     if variant is not None and state0["rev"] == [w.latest]:
@@ -650,6 +759,7 @@ def run_tree(ctx, w, variant, rev, depth, cfg, crash=None, smoke="first", only_p
         ctx.case(case, nontrivial=True)
         ctx.hit("interrupted-open")
         compare_model(ctx, case, ans["crash"], after, events, clause="C19.interrupted")
+        compare_rows(ctx, case, rcrash, after, events, clause="C19.rows.interrupted")
         before = after
         stamped_k = None  # what follows is judged by its net effect
 
@@ -675,6 +785,9 @@ def run_tree(ctx, w, variant, rev, depth, cfg, crash=None, smoke="first", only_p
                 compare_model(ctx, case, nodes[p], after, events)
             else:
                 ctx.disagree("C19.model-node-missing", case, None, None)
+            compare_rows(ctx, case, rnodes.get(p), after, events)
+            if role == "migrate" and not err:
+                judge_new_columns(ctx, w, case, before, after)
             judge_session(ctx, w, case, before, after, events, err, role, stamped_k if len(p) == 1 else None)
             if role != "noop" and variant is not None and (smoke == "all" or (smoke == "first" and not c)):
                 judge_features(ctx, w, case, f, state0)  # expectations: what the file held originally
